@@ -19,10 +19,17 @@ func emitIdents(p *Prog, in ssa.Instruction) []string {
 		return nil
 	}
 	n := calleeName(cc)
+	capArg, varArg, isText := textEmitterCall(p, in)
 	switch {
-	case strings.HasSuffix(n, "tScreen).TPuts"):
+	case strings.HasSuffix(n, "tScreen).TPuts") || isText:
 		var out []string
-		for _, s := range classifyEmit(p, cc.Args[1], 0) {
+		srcs := []emitSrc(nil)
+		if isText {
+			srcs = classifyExpansion(p, capArg, varArg, 0)
+		} else {
+			srcs = classifyEmit(p, cc.Args[1], 0)
+		}
+		for _, s := range srcs {
 			switch s.kind {
 			case "field":
 				out = append(out, "field:"+s.name)
@@ -33,6 +40,9 @@ func emitIdents(p *Prog, in ssa.Instruction) []string {
 			default:
 				out = append(out, s.kind)
 			}
+		}
+		if isText {
+			return out
 		}
 		// map lookups: remember the map and the key
 		if ex := derefCell(cc.Args[1]); ex != nil {
